@@ -48,6 +48,7 @@ func (b *verifNamedBackend) Delete() error {
 }
 
 var verifDiskHook func(name string) diskqueue.Interface
+var verifDiskLimits [2]int32
 
 func (d *verifDisk) new(name string) diskqueue.Interface {
 	if d.open[name] > 0 {
@@ -55,6 +56,7 @@ func (d *verifDisk) new(name string) diskqueue.Interface {
 	}
 	d.open[name]++
 	b := &verifNamedBackend{name: name, d: d, isOpen: true}
+	b.minSize, b.maxSize = verifDiskLimits[0], verifDiskLimits[1]
 	d.handles = append(d.handles, b)
 	return b
 }
@@ -71,6 +73,7 @@ func verifNewDisk() *verifDisk {
 func verifHookDiskqueueNew(name string, dataPath string, maxBytesPerFile int64, minMsgSize int32, maxMsgSize int32,
 	syncEvery int64, syncTimeout time.Duration, logf diskqueue.AppLogFunc) diskqueue.Interface {
 	if verifDiskHook != nil {
+		verifDiskLimits[0], verifDiskLimits[1] = minMsgSize, maxMsgSize
 		return verifDiskHook(name)
 	}
 	if verifrt.Symbolic() {
@@ -118,7 +121,7 @@ func VerifC08_DeleteChannelVsCreate() {
 	o.MemQueueSize = 1
 	n := verifShellNSQD(o)
 	disk := verifNewDisk()
-	verifrt.Stub("(*github.com/nsqio/nsq/nsqd.NSQD).Notify", verifNotifyNop)
+	verifrt.StubNative("(*github.com/nsqio/nsq/nsqd.NSQD).Notify", verifNotifyNop)
 	var t *Topic
 	var c1, c2 *Channel
 	var err2 error
@@ -172,7 +175,7 @@ func VerifC08_SubVsTopicDelete() {
 	o.MemQueueSize = 1
 	n := verifShellNSQD(o)
 	disk := verifNewDisk()
-	verifrt.Stub("(*github.com/nsqio/nsq/nsqd.NSQD).Notify", verifNotifyNop)
+	verifrt.StubNative("(*github.com/nsqio/nsq/nsqd.NSQD).Notify", verifNotifyNop)
 	verifrt.Preemptions(verifrt.Bound("sub-vs-delete-preemptions", 1, 2))
 	ephemeral := verifrt.Choice("ephemeral-topic", 2) == 1
 	tag, topicName, chanName := "durable", "t", "b"
